@@ -582,7 +582,7 @@ func c18Sabotage(recipe string, step int, reply []byte, seed uint64) []byte {
 
 func runC18(c *core.Ctx) {
 	// every fault kind at every step, both handshake versions, every mechanism
-	c.Cases("fault", c.N(6000, 27000), func(k *core.Case) {
+	c.Cases("fault", c.N(6000, 600000), func(k *core.Case) {
 		cfg := c18GenCfg(k.R, "fault")
 		c18Run(k, cfg)
 	})
@@ -610,7 +610,7 @@ func runC18(c *core.Ctx) {
 	})
 	// credentials: right / wrong, escaping, SASLprep
 	defer c18HostileLength(c)
-	c.Cases("creds", c.N(4000, 18000), func(k *core.Case) {
+	c.Cases("creds", c.N(4000, 400000), func(k *core.Case) {
 		cfg := c18GenCfg(k.R, "creds")
 		c18Run(k, cfg)
 	})
